@@ -30,22 +30,22 @@ namespace XotModel
 def OnlyElementsDeclare (t : Tree) : Prop :=
   t.Forall (fun v ks => v.isElement = false → (Tree.node v ks).nsDecls = [])
 
-theorem removeNsKid_sublist (p : Nat) : ∀ ks : List Tree, (removeNsKid p ks).Sublist ks
+theorem ddRemoveNsKid_sublist (p : Nat) : ∀ ks : List Tree, (removeNsKid p ks).Sublist ks
   | [] => List.Sublist.refl _
   | k :: ks => by
     unfold removeNsKid
     split
     · split
       · exact List.sublist_cons_self _ _
-      · exact (removeNsKid_sublist p ks).cons_cons _
+      · exact (ddRemoveNsKid_sublist p ks).cons_cons _
     · exact List.Sublist.refl _
 
-theorem removeOwn_sublist (pfxs : List Nat) (ks : List Tree) : (removeOwn pfxs ks).Sublist ks := by
+theorem ddRemoveOwn_sublist (pfxs : List Nat) (ks : List Tree) : (removeOwn pfxs ks).Sublist ks := by
   unfold removeOwn
   generalize pfxs.reverse = l
   induction l generalizing ks with
   | nil => exact List.Sublist.refl _
-  | cons a rest ih => exact (ih _).trans (removeNsKid_sublist a ks)
+  | cons a rest ih => exact (ih _).trans (ddRemoveNsKid_sublist a ks)
 
 mutual
 theorem onlyElementsDeclare_dpWalk (env : Env) : ∀ (x : Tree) (K : List (List (Nat × Nat))),
@@ -59,7 +59,7 @@ theorem onlyElementsDeclare_dpWalk (env : Env) : ∀ (x : Tree) (K : List (List 
         simp only [dpWalk, he, ↓reduceIte]
       rw [hw, Tree.forall_node]
       refine ⟨fun hne => (by rw [he] at hne; cases hne), fun k hk => ?_⟩
-      exact onlyElementsDeclare_dpWalkList env ks _ h.2 k ((removeOwn_sublist _ _).subset hk)
+      exact onlyElementsDeclare_dpWalkList env ks _ h.2 k ((ddRemoveOwn_sublist _ _).subset hk)
     · have he' : v.isElement = false := by simpa using he
       have hw : dpWalk env K (.node v ks) = .node v (dpWalk.dpWalkList env K ks) := by
         simp only [dpWalk, he', Bool.false_eq_true, ↓reduceIte]
